@@ -197,14 +197,14 @@ fn_attrs {
 #[verifier::loop_isolation(false)]
 }
 spec {
-    requires !old(self).single_packets,
     ensures
         final(self).socket.dest() == old(self).socket.dest(),
         final(self).payload == old(self).payload, final(self).retry_count == old(self).retry_count,
         // C09: the handshake request is always attempted first
         final(self).socket.attempts().len() > old(self).socket.attempts().len()
             && final(self).socket.attempts()[old(self).socket.attempts().len() as int] == handshake_request(),
-        forall|text: Seq<char>, pks: Seq<Pk>| #[trigger] gs3_script(old(self).socket.script(), text, pks) ==>
+        // (the single-packet mode of the JC2M wrapper is covered for panic-freedom and termination only)
+        forall|text: Seq<char>, pks: Seq<Pk>| !old(self).single_packets && #[trigger] gs3_script(old(self).socket.script(), text, pks) ==>
             (r is Err ==> is_transport_err(r->Err_0.kind))
             // C09: after the handshake exactly one more datagram is sent: the data request carrying the server's challenge
             && (r is Ok ==> final(self).socket.sent() == old(self).socket.sent().push(handshake_request())
@@ -223,7 +223,7 @@ before "while values.len() <= packet_id {" {
 }
 after "self.send_data_request(challenge)?;" {
     proof {
-        assert forall|text: Seq<char>, pks: Seq<Pk>| #[trigger] gs3_script(old(self).socket.script(), text, pks) implies
+        assert forall|text: Seq<char>, pks: Seq<Pk>| !old(self).single_packets && #[trigger] gs3_script(old(self).socket.script(), text, pks) implies
             self.socket.script() == old(self).socket.script().skip(1)
             && self.socket.sent() == old(self).socket.sent().push(handshake_request())
                     .push(data_request(if parse_i32(text)->Some_0 == 0 { None::<i32> } else { Some(parse_i32(text)->Some_0) }, old(self).payload)) by {
@@ -238,7 +238,7 @@ loop 1 {
         self.single_packets == old(self).single_packets,
         self.socket.attempts().len() > old(self).socket.attempts().len()
             && self.socket.attempts()[old(self).socket.attempts().len() as int] == handshake_request(),
-        forall|text: Seq<char>, pks: Seq<Pk>| #[trigger] gs3_script(old(self).socket.script(), text, pks) ==>
+        forall|text: Seq<char>, pks: Seq<Pk>| !old(self).single_packets && #[trigger] gs3_script(old(self).socket.script(), text, pks) ==>
             n <= pks.len()
             && self.socket.script() == old(self).socket.script().skip(1 + n)
             && self.socket.sent() == old(self).socket.sent().push(handshake_request())
@@ -251,7 +251,7 @@ loop 1 {
 }
 before "let received_data = self.receive(None, 0)?;" {
     proof {
-        assert forall|text: Seq<char>, pks: Seq<Pk>| #[trigger] gs3_script(old(self).socket.script(), text, pks) implies
+        assert forall|text: Seq<char>, pks: Seq<Pk>| !old(self).single_packets && #[trigger] gs3_script(old(self).socket.script(), text, pks) implies
             self.socket.script().len() > 0 && pk_valid(pks[n])
             && self.socket.script()[0] == gs3_reply(0u8, split_body(pks[n].id, pks[n].unknown, pks[n].data)) by {
             assert(old(self).socket.script().skip(1 + n)[0] == old(self).socket.script()[1 + n]);
@@ -270,7 +270,7 @@ loop 2 {
 }
 before "if values.iter().any(Vec::is_empty) {" {
     proof {
-        assert forall|text: Seq<char>, pks: Seq<Pk>| #[trigger] gs3_script(old(self).socket.script(), text, pks) implies
+        assert forall|text: Seq<char>, pks: Seq<Pk>| !old(self).single_packets && #[trigger] gs3_script(old(self).socket.script(), text, pks) implies
             !(exists|j: int| 0 <= j < values@.len() && (#[trigger] values@[j])@.len() == 0) by {
             lemma_len_bound(pks, pks.len() as int, pk_index(pks.last()) + 1);
             assert forall|i: int| 0 <= i < values@.len() implies (#[trigger] values@[i])@.len() > 0 by {
@@ -284,7 +284,7 @@ before "if values.iter().any(Vec::is_empty) {" {
 after "values[packet_id] = buf.remaining_bytes().to_vec();" {
     proof {
         assert(id & 0x7f < 128) by (bit_vector);
-        assert forall|text: Seq<char>, pks: Seq<Pk>| #[trigger] gs3_script(old(self).socket.script(), text, pks) implies
+        assert forall|text: Seq<char>, pks: Seq<Pk>| !old(self).single_packets && #[trigger] gs3_script(old(self).socket.script(), text, pks) implies
             self.socket.script() == old(self).socket.script().skip(1 + n + 1)
             && values@.len() == len_after(pks, n + 1)
             && (forall|i: int| 0 <= i < values@.len() ==> (#[trigger] values@[i])@ == slot_after(pks, n + 1, i))
